@@ -12,8 +12,8 @@ META = {
     "claim": "Held on the executed runs: generated one-sided, disjoint two-sided and same-path conflict histories (4-12 ops) over 5-8 provider flavours and 8 schedule shapes are driven through the real engine one loop iteration at a time; at quiescence both root trees must be equal modulo '.conflicted' names, quiescence must be reached within 3000 steps and no exception may escape a service step. Hazard-seeking histories (1 500 quick, 60 000 thorough) are attributed to listed findings by input predicate or reported.",
     "note": 'Trusted: MockProvider as substrate, the tap wrappers, the tree snapshot through listdir/download. Not reached: histories longer than 12 ops, real network timing, schedules finer than one loop iteration, provider flavours outside the matrix.',
     "technique": 'runtime monitoring: convergence oracle over observed quiescent trees of generated histories x schedules',
-    "plan": {"quick": {"shards": 16, "timeout": 600, "cases": 12000, "seek": 1500},
-             "thorough": {"shards": 32, "timeout": 3000, "cases": 240000, "seek": 60000}},
+    "plan": {"quick": {"shards": 16, "timeout": 600, "cases": 12000, "seek": 1500, "nest": 3000},
+             "thorough": {"shards": 32, "timeout": 3000, "cases": 240000, "seek": 60000, "nest": 60000}},
     "rule": "case = (family ONE0/ONE1/DISJ/CONF [+SEEK1/SEEK2/CLASH hazard-seeking, attributed by predicate], flavour, schedule shape, "
             "4-12 user ops) chosen round-robin over the product, details from PRNG(seed, index); executed on the real "
             "engine with one-loop-iteration steps; distinct = distinct signature (family, flavour, shape, ordered "
@@ -70,6 +70,29 @@ def shard(ctx, acc):
                 acc.known_hit(ks[0], W.brief_case(case))
             else:
                 acc.violation("seek:" + probs[0][0], probs[:4], case)
+    # NEST: folder renames / moves on one side racing with content work inside them on the other (id-stable providers);
+    # C01 only asks for convergence and bounded quiescence here (C04 decides the exact merge on the same family)
+    from vlib import nest as N
+    for i in F.indices(ctx, plan.get("nest", 0)):
+        case = N.make_case(ctx.seed, i)
+        probs, st = N.run_case(case)
+        acc.evaluations += 1
+        acc.count("nest_cases")
+        acc.count("engine_steps", st["steps"])
+        acc.count("engine_writes", st["writes"])
+        acc.count("user_ops", st["user_ops"])
+        if any(str(q[0]).startswith("harness") for q in probs):
+            acc.inconclusive.append(str(probs[0])[:200])
+            continue
+        if st["writes"]:
+            acc.sigs.add("nest:%d" % i)
+        bad = [q for q in probs if q[0] == "not_quiescent"] + [("diverged",) + tuple(d[1:]) for d in st.get("diverged", [])]
+        if bad:
+            if N.hd2(case):
+                acc.count("nest_failures_attributed_K1")
+                acc.known_hit("K1", N.brief(case))
+            else:
+                acc.violation("nest:" + bad[0][0], bad[:4], case)
     if ctx.shard == 0:
         P.run_probes(PROP, acc, lambda c: run(c, count=False))
 
@@ -82,4 +105,12 @@ def conclusive(acc, tier):
 
 
 coverage_extra = E.coverage_extra
-replay = E.replay_with(lambda c: run(c, count=False))
+def _replay_one(c):
+    if c.get("family") == "NEST":
+        from vlib import nest as N
+        probs, st = N.run_case(c)
+        return [q for q in probs if q[0] == "not_quiescent"] + list(st.get("diverged", []))
+    return run(c, count=False)
+
+
+replay = E.replay_with(_replay_one)
